@@ -472,10 +472,18 @@ def main(argv=None):
     nontrivial = set()
     dist = {}
     for case, obs, model in zip(cases, observed, models):
-        issues = mod.judge(case, obs, model)
-        for key in mod.features(case, obs):
+        try:
+            issues = mod.judge(case, obs, model)
+            feats = mod.features(case, obs)
+            nontriv = mod.nontrivial(case, obs)
+        except Exception as e:  # noqa: BLE001
+            # the comparison itself cannot digest what the implementation produced (never on the validated tree):
+            # the correspondence does not check on this case -> edge A broken, the failing-input search decides
+            issues = [Issue("A", {"comparison-failed": "%s: %s" % (type(e).__name__, str(e)[:200])})]
+            feats, nontriv = ["comparison-failed"], False
+        for key in feats:
             dist[key] = dist.get(key, 0) + 1
-        if mod.nontrivial(case, obs):
+        if nontriv:
             nontrivial.add(case_hash(case))
         for iss in issues:
             rec = {"case": case, "observed": obs, "model": model, "issue": iss.to_json()}
@@ -513,7 +521,11 @@ def main(argv=None):
         for case, obs in zip(extra, observe_all(modname, extra, args.jobs)):
             if "__harness_error__" in obs:
                 continue
-            for iss in mod.judge(case, obs, None):
+            try:
+                found = mod.judge(case, obs, None)
+            except Exception:  # noqa: BLE001
+                continue
+            for iss in found:
                 if iss.kind == "oracle" and iss.tag not in open_tags:
                     violations.append({"case": case, "observed": obs, "model": None, "issue": iss.to_json()})
 
